@@ -1,5 +1,8 @@
 """C16 - `cached` keys identify the call, not how it was written."""
 import inspect
+import shutil
+import tempfile
+from pathlib import Path
 import json
 
 from ..core import Prop, Suite
@@ -583,9 +586,113 @@ class AcrossProcesses(Suite):
         return repr(case)
 
 
+OVERRIDE_SRC = """
+from taskchain.cache import cached, InMemoryCache, JsonCache
+
+class Base:
+    def __init__(self, cache):
+        self.cache = cache
+        self.ran = []
+    @cached()
+    def compute(self, x):
+        self.ran.append('Base.compute')
+        return ['base', x]
+    @cached()
+    def plain(self, x):
+        self.ran.append('Base.plain')
+        return ['plain', x]
+    @cached(version=2)
+    def versioned(self, x):
+        self.ran.append('Base.versioned')
+        return ['base-v2', x]
+
+class Derived(Base):
+    @cached()
+    def compute(self, x):
+        self.ran.append('Derived.compute')
+        return ['derived', super().compute(x)]
+    @cached(version=2)
+    def versioned(self, x):
+        self.ran.append('Derived.versioned')
+        return ['derived-v2', super().versioned(x)]
+
+class Third(Derived):
+    @cached()
+    def compute(self, x):
+        self.ran.append('Third.compute')
+        return ['third', super().compute(x)]
+"""
+
+
+class OverriddenMethods(Suite):
+    """cached methods that override cached methods of the same name and call them (super().compute(x)), with the object's
+    own cache - in memory or in files: every method returns its own value on every call, each body runs once per binding,
+    the inherited method asked directly (super(Derived, d).compute(x)) gives its own value; a method that is not
+    overridden keeps the sub-cache named by its bare name.  Runtime check only."""
+    name = 'overridden_cached_methods'
+    model = ''
+
+    def gen(self, rng, tier):
+        return [dict(cls=c, cache=k, method=m) for c in ('Base', 'Derived', 'Third') for k in ('memory', 'json') for m in ('compute', 'versioned')]
+
+    def run_impl(self, case):
+        import sys, types
+        tmp = tempfile.mkdtemp(prefix='tcverif-over-')
+        name = 'tcv_override'
+        m = types.ModuleType(name)
+        sys.modules[name] = m
+        try:
+            exec(compile(OVERRIDE_SRC, name, 'exec'), m.__dict__)
+            cache = m.InMemoryCache() if case['cache'] == 'memory' else m.JsonCache(tmp)
+            o = getattr(m, case['cls'])(cache)
+            f = getattr(o, case['method'])
+            out = dict(first=f(1), second=f(1), ran=list(o.ran))
+            chain = [c for c in type(o).__mro__ if case['method'] in vars(c)]
+            out['levels'] = [[c.__name__, getattr(super(chain[i - 1], o), case['method'])(1) if i else f(1)] for i, c in enumerate(chain)]
+            out['ran_after'] = list(o.ran)
+            out['plain'] = [o.plain(5), o.plain(5)]
+            out['dirs'] = sorted(p.name for p in Path(tmp).iterdir()) if case['cache'] == 'json' else None
+            return out
+        finally:
+            sys.modules.pop(name, None)
+            shutil.rmtree(tmp, ignore_errors=True)
+
+    def oracle(self, case, obs):
+        if 'unexpected_exception' in obs:
+            return f'unexpected exception {obs["unexpected_exception"]}: {obs["text"]}'
+        tag = {'compute': {'Base': 'base', 'Derived': 'derived', 'Third': 'third'},
+               'versioned': {'Base': 'base-v2', 'Derived': 'derived-v2'}}[case['method']]
+        order = [c for c in ('Third', 'Derived', 'Base') if c in tag]
+        order = order[order.index(case['cls'] if case['cls'] in tag else 'Derived'):]
+
+        def want(i):
+            v = 1
+            for c in reversed(order[i:]):
+                v = [tag[c], v]
+            return v
+        if obs['first'] != want(0) or obs['second'] != want(0):
+            return f'{case}: the calls yield {obs["first"]} and {obs["second"]}; the method computes {want(0)}'
+        if sorted(obs['ran']) != sorted(f'{c}.{case["method"]}' for c in order) or obs['ran_after'] != obs['ran']:
+            return f'{case}: bodies run: {obs["ran_after"]}; each of {order} runs once for the binding x=1'
+        for i, (c, v) in enumerate(obs['levels']):
+            if v != want(i):
+                return f'{case}: the method of {c}, asked directly, yields {v}; it computes {want(i)} (another method of the same name stored its value there)'
+        if obs['plain'] != [['plain', 5]] * 2:
+            return f'{case}: plain yields {obs["plain"]}'
+        if obs['dirs'] is not None and 'plain' not in obs['dirs']:
+            return f'{case}: the entries of the method `plain`, which is not overridden, are kept in {obs["dirs"]}, not under its name'
+        return None
+
+    def nontrivial(self, case, obs):
+        return case['cls'] != 'Base'
+
+    def key(self, case):
+        return repr(case)
+
+
 class C16(Prop):
     pid = 'C16'
-    suites = [History(), Methods(), AcrossProcesses(), LongKeysAndCopies()]
+    suites = [History(), Methods(), AcrossProcesses(), LongKeysAndCopies(), OverriddenMethods()]
     trusted_base = ['json.dumps(sort_keys=True) of the standard library is injective on JSON-distinguishable values '
                     'and insensitive to dict insertion order (the model key is the value the key text denotes)']
     assumptions = ['calls are valid Python calls of the undecorated method; argument values are JSON-like with '
